@@ -1,5 +1,7 @@
 import GomlVerif.Lemmas.GoFileSim
-import GomlVerif.Props.Dce
+import GomlVerif.Lemmas.DcePrune
+import GomlVerif.Lemmas.DceScope
+import GomlVerif.Lemmas.DceSim6
 /-!
 File-level lifting of `dce_preserves`, step 1: `mapDce F` (every function body replaced by its
 DCE'd form, nothing pruned yet) reproduces every definite call of `F`, for files that satisfy the
@@ -104,10 +106,15 @@ theorem fnSim_mapDce {F : GFile} (hok : fileDceOK F = true) : FnSim F (mapDce F)
   obtain ⟨⟨⟨hblank, hscope⟩, hshape⟩, hsem⟩ := hfn
   obtain ⟨m0, e0⟩ := E0
   have hk := keys_bindG fn.params args hlen
-  obtain ⟨m, r', hm, hrel⟩ := dce_preserves_syn (mapDce F) (localsOf fn) fn.body (bindG fn.params args) w m0 r0
-    (by rw [hk]; intro hc; have : (fn.params.map (·.1)).contains "_" = true := by simpa using hc
-        rw [this] at hblank; cases hblank)
-    (by rw [hk]; exact hscope) hshape hsem (e0 m0 (Nat.le_refl _)) hdef
+  have hb : ¬ "_" ∈ keys (bindG fn.params args) := by
+    rw [hk]; intro hc
+    have : (fn.params.map (·.1)).contains "_" = true := by simpa using hc
+    rw [this] at hblank; cases hblank
+  -- `dce_preserves_syn` (Props/Dce.lean), applied inside `mapDce F`
+  obtain ⟨m, r', hm, hrel⟩ := (sim_all (F := mapDce F) (P := inertSyn false)
+      (fun e h => inertSyn_sound (mapDce F) e h) m0).bl (D := localsOf fn) (L := [])
+    (by rw [hk]; exact hscope) hshape hsem (rel_refl _ _ (bindG fn.params args) hb) (e0 m0 (Nat.le_refl _)) hdef
+  change execBlockG m (mapDce F) (bindG fn.params args) w (dceBody fn.body) = r' at hm
   have hd' : Definite r' := hrel.definite hdef
   refine ⟨m, fun k hk' => ?_⟩
   show retOfB (execBlockG k (mapDce F) (bindG fn.params args) w (dceBody fn.body)) = retOfB r0
